@@ -317,6 +317,18 @@ func polygon(r *vproto.Rng, big bool) geom.Polygon {
 		m = 60
 	}
 	pg := geom.Polygon{toPath(starRing(r, cx, cy, rad, m))}
+	if r.Chance(0.3) {
+		// a ring that is not star-shaped: a generated line closed back to its start (late chords
+		// then run close to early segments of the same ring; the closing segment may cross)
+		_, ps := lineOf(r, false)
+		if len(ps) > 60 {
+			ps = ps[:60]
+		}
+		if len(ps) > 0 && !r.Chance(0.05) {
+			ps = append(ps, ps[0])
+		}
+		pg[0] = toPath(ps)
+	}
 	nh := []int{0, 0, 1, 1, 2, 3}[r.Intn(6)]
 	for h := 0; h < nh; h++ {
 		hr := rad * (0.1 + 0.3*r.Float())
